@@ -4,13 +4,16 @@ CONSTANTS
   MaxExec = 1
   MaxEmit = 1
   Subs = {"s1"}
-  SampleMod = 1
+  SampleMod = 2
   Tag = "T"
   MaxLen = 99
   Dev_BoxKeptAfterRemove = FALSE
   Dev_IdZeroAfterMainRemoved = FALSE
   Dev_TerminateKeepsObjects = FALSE
   Dev_FailedAddLeavesEntry = FALSE
+  ClientSide = FALSE
+  Dev_ClientRemoveKeepsEntry = FALSE
+  Dev_ClientLateCallDropped = FALSE
 VIEW View
 CONSTRAINT Bounded
 INVARIANTS UniqueLiveIds TerminateHookExactlyOnce SubscribersTold NoCrash
